@@ -219,16 +219,16 @@ def check_wrap(fx, R, gq, dim):
     # the return value is the wrapped vector; linear index = wrap(...) . coefficients
     rets = [x for x in walk(f['body']) if x.get('k') == 'Return']
     okr = len(rets) == 1 and pp(strip_casts(rets[0]['e'])).endswith('wrappredCellIndexes') or (len(rets) == 1 and 'rapp' in pp(rets[0]['e']))
-    R.check(okr, 'O1', '%s::wrapCellIndexes_:return' % cname, 'does not return the wrapped index vector: %s' % [pp(r['e']) for r in rets], 'returns the wrapped vector', fx.rel(f['loc']), 'E-SIB')
+    R.form(okr, 'O1', '%s::wrapCellIndexes_:return' % cname, 'does not return the wrapped index vector: %s' % [pp(r['e']) for r in rets], 'returns the wrapped vector', fx.rel(f['loc']), 'E-SIB')
     rl = [x for x in walk(fl['body']) if x.get('k') == 'Return']
     txt = pp(rl[0]['e']) if len(rl) == 1 else ''
     okl = 'this.wrapCellIndexes_(' in txt and '.dot(this.indexCoefficients_)' in txt
-    R.check(okl, 'O1', '%s::computeCellLinearIndex_' % cname, 'linear index is not wrap(indexes).dot(indexCoefficients_): %s' % txt, 'linear = wrap(logical) . coefficients', fx.rel(fl['loc']), 'E-SIB')
+    R.form(okl, 'O1', '%s::computeCellLinearIndex_' % cname, 'linear index is not wrap(indexes).dot(indexCoefficients_): %s' % txt, 'linear = wrap(logical) . coefficients', fx.rel(fl['loc']), 'E-SIB')
     for f2 in fx.fn(gq + '::operator()'):
         R.used(f2)
         t = [pp(x['e']) for x in walk(f2['body']) if x.get('k') == 'Return']
         ok = len(t) == 1 and t[0].replace(' ', '') == 'this.buffer_[this.computeCellLinearIndex_(cellIndexes)]'
-        R.check(ok, 'O1', '%s::operator()%s' % (cname, ' const' if f2.get('const') else ''), 'cell access bypasses the wrap map: %s' % t, 'buffer_[computeCellLinearIndex_(indexes)]', fx.rel(f2['loc']), 'E-SIB')
+        R.form(ok, 'O1', '%s::operator()%s' % (cname, ' const' if f2.get('const') else ''), 'cell access bypasses the wrap map: %s' % t, 'buffer_[computeCellLinearIndex_(indexes)]', fx.rel(f2['loc']), 'E-SIB')
 
 
 def check_translate(fx, R, gq, dim):
